@@ -38,6 +38,7 @@ class G:
         self.repo = repo
         self._trees = {}
         self._ns = {}
+        self._accessed = set()
 
     # ---------------------------------------------------------------- AST access
     def tree(self, path):
@@ -72,6 +73,7 @@ class G:
         return ns[name], f"{path}:{lines[name]}"
 
     def node(self, path, qual):
+        self._accessed.add((path, qual))
         node = self.tree(path)
         for part in qual.split("."):
             found = None
@@ -238,6 +240,24 @@ class G:
         return self.item(file, name, "List (String × List UInt8)", fn)
 
 
+def shape_of(g, path, qual):
+    """structural signature of a function: how many statement / expression nodes of each kind it has
+    (operators, constants' values and names are NOT part of it).  A point edit of a constant or an
+    operator keeps the shape, so its new value is extracted and the model regenerates; any rewrite
+    that changes the shape makes positional extraction unreliable, so every item that reads this
+    function falls back to its locked value (reported as unlocated)."""
+    from collections import Counter
+    saved = set(g._accessed)
+    try:
+        fn = g.node(path, qual)
+    except Unlocated:
+        return None
+    finally:
+        g._accessed = saved
+    c = Counter(type(n).__name__ for n in ast.walk(fn) if isinstance(n, (ast.stmt, ast.expr)))
+    return ",".join(f"{k}{v}" for k, v in sorted(c.items()))
+
+
 def lean_str(s):
     out = ['"']
     for ch in s:
@@ -299,29 +319,48 @@ def collect(repo):
     items = []
     for m in sorted(pkgutil.iter_modules(gen_parts.__path__), key=lambda m: m.name):
         try:
+            g._accessed = set()
             mod = importlib.import_module(f"harness.gen_parts.{m.name}")
             part_items = list(mod.items(g))
+            part_acc = set(g._accessed)
         except Exception as e:  # a part under development must not break the other properties
             sys.stderr.write(f"gen_lean: part {m.name} failed: {type(e).__name__}: {e}\n")
             continue
         for it in part_items:
             it["part"] = m.name
+            it["acc"] = set(part_acc)
             items.append(it)
-    return items
+    return g, items
 
 
 def generate(repo, outdir, relock=False):
     lock = json.load(open(LOCK)) if os.path.exists(LOCK) else {}
-    items = collect(repo)
+    g, items = collect(repo)
+    lock_shapes = lock.get("__shape__", {}) if isinstance(lock.get("__shape__", {}), dict) else {}
+    new_shapes = {}
+    shape_cache = {}
+
+    def shape(pq):
+        if pq not in shape_cache:
+            shape_cache[pq] = shape_of(g, *pq)
+        return shape_cache[pq]
     files = {}
     report, unlocated, changed = [], [], []
     newlock = {}
     for it in items:
         key = f"{it['file']}.{it['name']}"
         try:
+            g._accessed = set()
             v, loc = it["fn"]()
             txt = to_lean(it["ty"], v)
             located = True
+            acc = set(it.get("acc", ())) | set(g._accessed)
+            for pq in sorted(acc):
+                k = f"{pq[0]}:{pq[1]}"
+                sh = shape(pq)
+                new_shapes[k] = sh
+                if not relock and key in lock and k in lock_shapes and lock_shapes[k] != sh:
+                    raise Unlocated(f"the shape of {k} changed; positional extraction not trusted")
         except Exception as e:
             located = False
             loc = f"unlocated ({e})"
@@ -358,8 +397,9 @@ def generate(repo, outdir, relock=False):
     if relock:
         if unlocated:
             raise RuntimeError(f"cannot relock with unlocated items: {unlocated}")
+        newlock["__shape__"] = dict(sorted(new_shapes.items()))
         with open(LOCK, "w") as f:
-            json.dump(dict(sorted(newlock.items())), f, indent=0)
+            json.dump(dict(sorted(newlock.items(), key=lambda kv: kv[0])), f, indent=0)
             f.write("\n")
     return {"items": report, "unlocated": unlocated, "changed_vs_lock": changed}
 
